@@ -19,7 +19,7 @@ EXHAUSTIVE = {"quick": ["720 orderings of a 6-element 3-length-class list x 4 en
               "thorough": ["720 orderings x 3 different base lists x 4 engines", "all strings len<=5 over ACD, k=1..3",
                            "all strings len<=4 over AC, k=1..4"]}
 REQUIRE = {"inputs_lengths_not_grouped": 50, "inputs_with_shift_pairs": 5, "inputs_with_unequal_length_lev_close_pairs": 20,
-           "kdtree_calls": 50, "hash_based_calls": 50, "symdel_calls": 50, "cross_cases": 20, "triplets_compared": 1000}
+           "kdtree_calls": 50, "hash_based_calls": 50, "symdel_calls": 50, "cross_cases": 12, "triplets_compared": 1000}
 SHARDS = {"quick": 6, "thorough": 16}
 
 
